@@ -25,9 +25,9 @@ macro_rules! ctr_core_case {
             let l3 = spec::ctr_layout($spec, &iv, B, pos as u128 + NB as u128);
             // implementation
             let mut core = ctr::CtrCore::<_, ctr::flavors::$flavor>::inner_iv_init(c.clone(), blk::<$bs>(&iv));
-            assert!(core.get_block_pos() == 0);
-            core.set_block_pos(pos);
-            assert!(core.get_block_pos() == pos, "get_block_pos after set_block_pos");
+            assert!(core.get_block_pos() as u128 == 0);
+            core.set_block_pos(pos as _);
+            assert!(core.get_block_pos() as u128 == (pos) as u128, "get_block_pos after set_block_pos");
             let want_rem = (<$ct>::MAX - pos) as u128;
             let rem = core.remaining_blocks();
             if want_rem <= usize::MAX as u128 {
@@ -49,7 +49,7 @@ macro_rules! ctr_core_case {
                 assert!(buf[i] == orig[i] ^ ks[i], "keystream block differs from E(layout(IV, i))");
                 i += 1;
             }
-            assert!(core.get_block_pos() == pos + NB as $ct, "position advances by the blocks produced");
+            assert!(core.get_block_pos() as u128 == (pos + NB as $ct) as u128, "position advances by the blocks produced");
             let st = core.iv_state();
             let mut j = 0;
             while j < B {
@@ -76,7 +76,7 @@ macro_rules! ctr_core_case {
                     assert!(raw[j] == ks2[2 * B + j], "write_keystream_block differs");
                     j += 1;
                 }
-                assert!(core.get_block_pos() == pos + NB as $ct + 3);
+                assert!(core.get_block_pos() as u128 == (pos + NB as $ct + 3) as u128);
             }
             kani::cover!(true);
             kani::cover!(pos == <$ct>::MAX - NB as $ct);
